@@ -421,9 +421,29 @@ contents lines.txt : -transformed-by MULTI equals <<END
 first
 last@[CODE]@
 END
+contents lines.txt : -transformed-by filter -line-nums @[LN]@
+  equals <<END
+@[LNTEXT]@
+END
+contents lines.txt : -transformed-by filter -line-nums @[LN]@:@[LN]@ -1
+  equals <<END
+@[LNTEXT2]@
+END
+contents lines.txt : num-lines == @[NL]@ && ! num-lines > @[NL]@
+dir-contents . : -recursive -min-depth 0 -max-depth @[NL]@ num-files == 2
+contents lines.txt : -transformed-by replace -at line-num == @[LN]@ '$' '!' any line : contents equals @[LNTEXT]@!
 [cleanup]
 run %% chk-cleanup @[EXP]@ "@[EXACTLY_ACT]@"
 """
+
+
+def _ln_defs(i):
+    """Per-case line number LN (a different one in every case), the text of that line, and the number of lines."""
+    lines = ['first'] + ['mid'] * (2 - i) + ['last%d' % (i + 1)]
+    ln = [2, 3, 1][i]
+    t = lines[ln - 1]
+    t2 = t if ln == len(lines) else t + '\n' + lines[-1]
+    return "def string LN = %d\ndef string LNTEXT = %s\ndef string LNTEXT2 = '%s'\ndef string NL = %d\n" % (ln, t, t2, len(lines))
 
 
 def _shared_case(i):
@@ -431,7 +451,8 @@ def _shared_case(i):
     code = i + 1
     return ("[setup]\ndef string EXP = '%s'\ndef string CODE = %d\ndef list L = %s l\ndef path P = -rel-act %s.txt\n"
             "def integer-matcher IM = == %d\ndef text-matcher TM = equals '%s'\ndef text-transformer TT = replace %s %s-%s\n"
-            "file %s.txt = '%s'\nfile lines.txt = <<END\nfirst\n%slast%d\nEND\n[act]\n%% atc%d\n" % (exp, code, exp, exp, code, exp, exp, exp, exp, exp, exp, 'mid\n' * (2 - i), code, i))
+            "file %s.txt = '%s'\nfile lines.txt = <<END\nfirst\n%slast%d\nEND\n" % (exp, code, exp, exp, code, exp, exp, exp, exp, exp, exp, 'mid\n' * (2 - i), code)
+            + _ln_defs(i) + "[act]\n%% atc%d\n" % i)
 
 
 def _shared(res, case, w, seam, mp):
@@ -454,7 +475,7 @@ def _shared(res, case, w, seam, mp):
             lines = [re.sub(r'\(\d+\.\d+s\) ', '', l) for l in o.out.split('\n') if l.startswith('case')]
             want = ['case  %s: PASS' % n for n in names]
             if lines != want:
-                errs.append('suite run: %s, every case passes alone: %s / %s' % (lines, want, ' / '.join(cli.stderr_lines(o.err)[:12])))
+                errs.append('suite run: %s, every case passes alone: %s / %s' % (lines, want, ' / '.join(l for l in cli.stderr_lines(o.err)[:12] if not l.startswith('Ran '))))
             seq = order
         else:
             if o.ident != 'PASS':
